@@ -56,6 +56,18 @@ def blocks(tier, seed, prop='C01'):
             if tier == 'thorough' and r == 'R1':
                 out.append((f'D2/R9/exc/w{wi}', E.d2_cases('R9', 'ENST10', CFG_EXC, lo, hi, 9),
                             dict(deviations=2, window=[lo, hi])))
+    # MNV + one more record: two adjacent SNVs (merged to an MNV) and every third variant within 9 nt
+    for r in ('R1', 'R3'):
+        tx = MAIN_TX[r]
+        L = panel.get(r).tx_len(tx)
+        starts = list(range(6, L - 12, 6))
+        if tier == 'quick':
+            chosen = [starts[i] for i in vlib.seeded_windows(seed, len(starts), 2, always=(3,))] if r == 'R1' else \
+                [starts[i] for i in vlib.seeded_windows(seed, len(starts), 1, always=())]
+        else:
+            chosen = starts[::2]
+        for st in chosen:
+            out.append((f'MNV3/{r}/p{st}', E.mnv3_cases(r, tx, CFG_NONE, st, st + 3), dict(deviations=3, window=[st, st + 3])))
     # CFG-enz: D1 under rules covering every context shape (no look-ahead, look-behind only, both, long)
     enz = ['lysc', 'lysn', 'arg-c', 'asp-n', 'chymotrypsin high specificity', 'glutamyl endopeptidase',
            'proline endopeptidase', 'thermolysin', 'pepsin ph1.3', 'cnbr']
